@@ -32,7 +32,10 @@ package ebpf
 //@   modifies nothing
 // whenever the map is loaded the entry is removed from the kernel map (exactly one Delete), whatever the key looks like
 //@   ghost bpfDeletes mathint = 0
-//@   ensures l.circuitIDSubscribers != nil ==> bpfDeletes == 1
+// (a circuit-id longer than the 32-byte key is never installed, see AddCircuitIDSubscriber: nothing to delete,
+// and the truncated key may be another subscriber's)
+//@   ensures l.circuitIDSubscribers != nil && len(circuitID) <= 32 ==> bpfDeletes == 1
+//@   ensures l.circuitIDSubscribers != nil && len(circuitID) > 32 ==> bpfDeletes == 0 && err == nil
 //@   ensures l.circuitIDSubscribers == nil ==> bpfDeletes == 0 && err != nil
 //@   sets relCacheCID = relCacheCID + 1
 
@@ -101,6 +104,11 @@ package ebpf
 
 //@ func (l *Loader) AddCircuitIDSubscriber
 //@   modifies nothing
+// "each relay circuit-id key in use identifies at most one subscriber": a circuit-id that does not fit the
+// 32-byte key is not filed under its first 32 bytes (every circuit-id sharing them would hit the entry)
+//@   ghost bpfPuts mathint = 0
+//@   ensures len(circuitID) > 32 ==> err != nil && bpfPuts == 0
+//@   ensures bpfPuts <= 1
 
 // The circuit_id_map key is the 64-bit FNV-1a hash of ALL bytes of the circuit-id (the function the
 // XDP program computes over the option bytes): fnv1a64 is the hash/fnv recurrence.
